@@ -94,6 +94,10 @@ def run (s : Sexp) : String :=
     let m := match roundTrip false unmap c.heap roots with
       | some (rs, st) => verdictText c.heap roots st.out rs
       | none => "error:model"
+    -- the scalars of every object through the conversion table of today's in-memory copy (`tableMem`; always kept:
+    -- `scalarsKept_mem`, an instance of `C04_scalars_preserved`)
+    let m := if c.heap.all (fun n => scalarsKept tableMem driverEnums n.lab.scal) then m
+             else "error:scalars-changed-by-table " ++ m
     let spec := canon c.heap roots
     s!"model={m}\tspec={spec}\ttrig="
 end KrroodVerif.Drive.C04
